@@ -10,6 +10,11 @@ THEOREMS = ["C04_add", "C04_sub", "C04_mul", "C04_neg", "C04_set", "C04_inc", "C
             "C04_forms_agree", "C04_operands_untouched", "C04_apply_pointwise", "C04_reachable_nodup", "C04_nonvacuous"]
 
 
+LAWS = ["C04a_add_comm", "C04a_add_assoc", "C04a_add_sub_cancel", "C04a_sub_self", "C04a_sub_as_add_neg", "C04a_neg_involutive",
+        "C04a_neg_is_mul", "C04a_mul_one_zero", "C04a_mul_mul", "C04a_mul_distr_add", "C04a_mul_distr_scalar",
+        "C04a_repeated_add", "C04a_nonvacuous"]
+
+
 def zl(xs):
     return "[" + "; ".join("(%d)%%Z" % x for x in xs) + "]"
 
@@ -64,6 +69,7 @@ def run(run, args):
     run.oblige("correspondence: model = implementation on every case", not res[0], "%d differ" % len(res[0]))
     run.oblige("pointwise laws, untouched operands and constructor sums hold on every implementation output", not res[1], "")
     broken = standard_proof_obligations(run, "C04", THEOREMS)
+    broken += standard_proof_obligations(run, "C04a", LAWS)
     broken += source_corollaries(run, "C04s", ['C04s_list', 'C04s_map', 'C04s_enum', 'C04s_forms_agree'], ('comp', 'props'))
     if res[1]:
         violation(run, {"failing_input": by_id[res[1][0]], "pool": pool,
